@@ -180,6 +180,11 @@ def run_d_case(c, res):
         req = gn_request(kind, payload, shape=shape, ar=area(ar["lat"], ar["lon"], ar["a"], ar["b"], ar["angle"]),
                          nh=CommonNH.BTP_B, hop=c["hop"])
         size = G.area_m2(ar["shape"], ar["a"], ar["a"] if ar["shape"] == G.CIRCLE else ar["b"])
+        if c.get("r_ll_refuses"):
+            # fault injection: the receiver's lower layer refuses its next frame (interface busy) -- what the station
+            # hands to its own upper layer does not depend on whether it could pass the packet on
+            w.ether.nodes["R"].fail_next = "sending"
+            res.count("D.receiver_link_layer_refuses_next_frame")
         try:
             conf = S.router.gn_data_request(req)
             w.settle()
@@ -257,6 +262,10 @@ def run_d_case(c, res):
             else:
                 want_fwd = True
                 why = "annex-D:ego-outside,sender-outside-or-unknown->non-area-forwarding"
+        if c.get("r_ll_refuses"):
+            if r_tx and not want_fwd:
+                res.violation(f"C07:forwarding-choice-differs[{kind}][{why}][after-refused-frame]", "transmitted although Annex D says discard", c)
+            return          # the one transmission attempt was refused (or none was due): nothing on the air to judge
         res.count("D.forward_judged")
         res.count(f"D.{why}")
         if bool(r_tx) != want_fwd:
@@ -429,7 +438,7 @@ def gen_d(rng):
         return None
     hop = rng.choice((1, 2, 5, 10))
     return {"part": "D", "area": ar, "kind": rng.choice(("gbc", "gac")), "r_pos": list(rp), "rho": rho, "s_pos": list(sp), "s_rho": srho,
-            "s_pai": rng.randrange(2), "hop": hop, "hop_eff": hop if hop > 1 else 10,
+            "s_pai": rng.randrange(2), "hop": hop, "hop_eff": hop if hop > 1 else 10, "r_ll_refuses": rng.random() < 0.15,
             "s_max": rng.choice((10, 10, 1, 100, 100000)), "r_max": rng.choice((10, 10, 1, 100000)), "r_alg": rng.choice((1, 1, 2, 0)),
             "tag": rng.randrange(256)}
 
